@@ -192,6 +192,9 @@ def dup_element_ids(new, fault, fmt):
 DICT_ATTR = rb"(unit|uncertainty|definition|reference|value_origin|dependency|dependency_value|author|version|date)"
 JSON_ATTR_LINE = re.compile(rb'^( *)"' + DICT_ATTR + rb'": ("[^"\\]*"|-?[0-9.]+),?$')
 YAML_ATTR_LINE = re.compile(rb"^( *(?:- )?)" + DICT_ATTR + rb": ([^\n]+)$")
+# an empty child list: losing the line loses nothing ('sections: []' / '"properties": [],')
+JSON_EMPTY_LIST = re.compile(rb'^( *)"(sections|properties)": (\[\]),$')
+YAML_EMPTY_LIST = re.compile(rb"^( *)(sections|properties): (\[\])$")
 
 
 def _key_indent(line):
@@ -231,6 +234,9 @@ def dict_attr_record_owner(new, fault, fmt):
         # keys fall into the previous item
         if fault["l2"] - fault["l1"] == 1 and fault["l1"] < len(lines) and \
                 pat.match(lines[fault["l1"]]) and not lines[fault["l1"]].lstrip().startswith(b"- "):
+            target = fault["l1"]
+        elif kind == "drop" and fault["l2"] - fault["l1"] == 1 and fault["l1"] < len(lines) and \
+                (JSON_EMPTY_LIST if fmt == "json" else YAML_EMPTY_LIST).match(lines[fault["l1"]]):
             target = fault["l1"]
     if target is None:
         return None
@@ -320,6 +326,15 @@ def shaped(obj):
     return True
 
 
+def shape_bytes(shape):
+    d = shape["depth"]
+    body = "".join("<section><name>s%d</name><type>t</type>" % i for i in range(d)) + "</section>" * d
+    return ('<?xml version="1.0" encoding="UTF-8"?>\n<odML version="1.1">%s</odML>\n' % body).encode()
+
+
+DEPTHS = [100, 250, 256, 300, 600, 1500, 3000]
+
+
 def call(fn):
     """Run one reader call under a timer; -> ('doc', obj) | ('none',) | ('exc', type, msg) | ('hang',)"""
     def on_alarm(signum, frame):
@@ -371,16 +386,22 @@ def run_case(case):
     fmt = case["fmt"]
     streams = seeds.Streams(case["run_seed"])
     with seams.installed(streams) as env:
-        rng = seeds.Streams(case["doc_seed"]).get("doc")
-        doc = build_doc(odml, rng)
         path = os.path.join(env.sandbox, "stored." + fmt)
-        odml.save(doc, path, fmt)
-        with open(path, "rb") as fobj:
-            old = fobj.read()
-        edit_doc(odml, doc, rng)
-        odml.save(doc, path, fmt)
-        with open(path, "rb") as fobj:
-            new = fobj.read()
+        if case.get("shape"):
+            # resource-limit shapes: stored text that is valid but extreme (nesting depth); the
+            # reader has to answer with a Document or a ParserException, like for any other text
+            old = new = shape_bytes(case["shape"])
+            res.count("labels", "shape:%s:%s" % (case["shape"]["kind"], case["shape"]["depth"]))
+        else:
+            rng = seeds.Streams(case["doc_seed"]).get("doc")
+            doc = build_doc(odml, rng)
+            odml.save(doc, path, fmt)
+            with open(path, "rb") as fobj:
+                old = fobj.read()
+            edit_doc(odml, doc, rng)
+            odml.save(doc, path, fmt)
+            with open(path, "rb") as fobj:
+                new = fobj.read()
         faults = case["faults"]
         if faults == "generate":
             frng = streams.get("fault")
@@ -411,7 +432,8 @@ def run_case(case):
             V = Universe()
             V.register(obj)
             V.rediscover()
-            v = tree_structure(V) or names_ids(V, str_names=False)
+            v = tree_structure(V, max_depth=4000 if case.get("shape") else 60) or \
+                names_ids(V, str_names=False)
             if v:
                 return ("read.wellformed-tree", "%s returned a document violating %s: %s" %
                         (name, v[0], v[1]))
@@ -651,6 +673,11 @@ def explore(run_seed, tier, known=None):
     r = rng.random()
     if r < 0.5:
         case["kinds"] = rng.sample(storage_faults.KINDS, rng.randint(1, 3))   # swarm
+    if rng.random() < 0.03:
+        case["fmt"] = "xml"
+        case["shape"] = {"kind": "deep", "depth": rng.choice(DEPTHS)}
+        case["faults"] = [] if rng.random() < 0.7 else "generate"
+        case["kinds"] = ["bitflip", "truncate"]
     return run_case(case)
 
 
